@@ -95,3 +95,49 @@ Theorem R07_underscore_refuted :
     ~ In "_" (top_surface (apply_rule (rule_guard r) (safe_preserve [] m) o m)).
 Proof. exact safe_mode_underscore_refuted. Qed.
 Print Assumptions R07_underscore_refuted.
+
+(* ---- round 5 (seed C07-d): the surface is the FINAL ENVIRONMENT of the module body, not the set of stored
+   names.  [run] (SurfaceEnvModel.v) is the reference semantics of binding events (bind / annotate-only /
+   require / unbind), validated against exec() on the re-binding family by harness/c07_env.py. *)
+Require Import Pyrefact.SurfaceEnvModel Pyrefact.SurfaceEnvProofs.
+
+(* T07.6 a transformation that leaves the sub-sequence of events about preserved names untouched keeps, for
+   every preserved name, whether it is bound at the end of the module body. *)
+Theorem T07_6_final_env_partial : forall P evs evs' e e',
+  proj P evs = proj P evs' -> run_from [] evs = Some e -> run_from [] evs' = Some e' ->
+  forall n, mem n P = true -> mem n e = mem n e'.
+Proof. exact proj_eq_final_env. Qed.
+Print Assumptions T07_6_final_env_partial.
+
+(* T07.7 a rule that only removes statements that mention no preserved name keeps the domain of the final
+   environment on the preserved names; the preserved part of its output runs without NameError. *)
+Theorem T07_7_removal_keeps_final_env : forall P keep b e,
+  only_unpreserved_removed P keep b = true -> run b = Some e ->
+  run_from [] (proj P (List.concat (select keep b))) = Some (restrict P e) /\
+  (forall e', run (select keep b) = Some e' -> forall n, mem n P = true -> mem n e = mem n e').
+Proof. exact removal_keeps_final_env. Qed.
+Print Assumptions T07_7_removal_keeps_final_env.
+
+(* T07.8 ... and the output still imports when every name an augmented assignment / del demands is preserved. *)
+Theorem T07_8_removal_keeps_import : forall P keep b e,
+  only_unpreserved_removed P keep b = true -> demands_in P (List.concat b) = true -> run b = Some e ->
+  exists e', run (select keep b) = Some e' /\ forall n, mem n P = true -> mem n e = mem n e'.
+Proof. exact removal_keeps_import. Qed.
+Print Assumptions T07_8_removal_keeps_import.
+
+(* R07.6 "the set of stored names is kept => the surface is kept" is refuted: annotation-only re-declaration
+   (X undefined afterwards) and del + re-binding (the output does not import). *)
+Theorem R07_6_name_set_reading_refuted :
+  (exists b keep e e', incl_b (stored_names b) (stored_names (select keep b)) = true /\
+      run b = Some e /\ run (select keep b) = Some e' /\ mem X e = true /\ mem X e' = false) /\
+  (exists b keep e, incl_b (stored_names b) (stored_names (select keep b)) = true /\
+      run b = Some e /\ mem X e = true /\ run (select keep b) = None).
+Proof. exact name_set_reading_refuted. Qed.
+Print Assumptions R07_6_name_set_reading_refuted.
+
+(* T07.9 the set reading of T07.1-T07.3 is exact where nothing unbinds: every name of [top_surface] is bound
+   at the end of a module of the [item] language (no del) that imports. *)
+Theorem T07_9_surface_in_final_env : forall m e, run (module_events m) = Some e ->
+  forall n, In n (top_surface m) -> In n e.
+Proof. exact surface_in_final_env. Qed.
+Print Assumptions T07_9_surface_in_final_env.
